@@ -22,7 +22,7 @@ T = {"double": 1e-13, "single": 2e-6}
 
 
 def cases(tier, seed):
-    n = 240 if tier == "quick" else 14400
+    n = 240 if tier == "quick" else 43200
     kinds = ["scalar", "single", "ascending", "descending", "shuffled", "with_top_first", "full", "full_reversed"]
     out_ = [{"seed": seed, "idx": i, "sel": kinds[i % len(kinds)]} for i in range(n)]
     # the configuration-driven drivers pass output_levels / full_output through: every step of a series carries its own heights
